@@ -1,0 +1,38 @@
+//go:build verif
+
+package tests
+
+import (
+	"fmt"
+	"os"
+	"sync"
+	"time"
+
+	simplefixgo "github.com/b2broker/simplefix-go"
+)
+
+// Verification builds only: when VERIF_HOOK_TRACE names a file, every handler event of the
+// integration tests is appended to it ("<ms> <kind> <handler#> <hex bytes>").
+func init() {
+	path := os.Getenv("VERIF_HOOK_TRACE")
+	if path == "" {
+		return
+	}
+	f, err := os.Create(path)
+	if err != nil {
+		panic(err)
+	}
+	var mu sync.Mutex
+	start := time.Now()
+	ids := map[interface{}]int{}
+	simplefixgo.VerifTrace = func(kind string, h interface{}, data []byte) {
+		mu.Lock()
+		defer mu.Unlock()
+		id, ok := ids[h]
+		if !ok {
+			id = len(ids) + 1
+			ids[h] = id
+		}
+		fmt.Fprintf(f, "%d %s %d %x\n", time.Since(start).Milliseconds(), kind, id, data)
+	}
+}
